@@ -16,7 +16,8 @@
 
    The model mirrors the code AFTER the repairs in /verif/fixes/C04 (self-assignment guards,
    MultiMap copy operations, Array::append/resize copying the argument before the storage is
-   replaced, List::insert(pos, list) copying the list when it is the list itself).
+   replaced, List::insert(pos, list) copying the list when it is the list itself,
+   Array::append(const T*, usize) re-basing a pointer into its own storage after reserve()).
    No proofs in this file. *)
 From Coq Require Import ZArith List Bool Arith.
 From Life Require Import LifeSpec.
@@ -24,6 +25,21 @@ Import ListNotations.
 
 Notation id := nat (only parsing).
 Notation blk := nat (only parsing).
+
+(* ---------------------------------------------------------------------------------------- *)
+(* facts about the implementation that the property text does not fix                         *)
+(* ---------------------------------------------------------------------------------------- *)
+(* PoolMap::Item declares `V value; const T key;` - every other item declares the key first *)
+Definition key_first (k : kind) : bool := match k with KPoolMap => false | _ => true end.
+(* number of element instances inside the embedded end item (`Item endItem`) *)
+Definition sent_count (k : kind) : nat :=
+  match k with KArray | KPoolList => 0 | KList | KHashSet => 1 | _ => 2 end.
+Definition fields (k : kind) : nat := (if has_key k then 1 else 0) + (if has_val k then 1 else 0).
+(* element instances alive when no operation is in progress, as a function of the abstract
+   state: one per field of every stored item, plus those of the end items *)
+Definition slive_var (v : avar) : nat :=
+  match v with Some (k, l) => sent_count k + fields k * length l | None => 0 end.
+Definition slive (s : sstate) : nat := fold_right (fun v n => slive_var v + n) 0 s.
 
 Inductive event :=
 | EDef (i : id)                (* T()            *)
@@ -231,6 +247,15 @@ Definition arr_append_arr (a : arr) (o : option arr) : M arr :=
   let n := length (aelems (match o with Some y => y | None => a end)) in
   a1 <- arr_reserve a (length (aelems a) + n) ;;
   l <- copy_list (firstn n (aelems (match o with Some y => y | None => a1 end))) ;;
+  ret (set_elems a1 (aelems a1 ++ l)).
+
+(* void append(const T* values, usize size) with values = &y[i]; o = Some y: another array;
+   o = None: values points into this array's own storage - the repaired code notes the offset,
+   calls reserve() and re-bases values onto the (possibly new) storage, so the sources are the
+   instances that live at the same indices after reserve() *)
+Definition arr_append_range (a : arr) (o : option arr) (i n : nat) : M arr :=
+  a1 <- arr_reserve a (length (aelems a) + n) ;;
+  l <- copy_list (firstn n (skipn i (aelems (match o with Some y => y | None => a1 end)))) ;;
   ret (set_elems a1 (aelems a1 ++ l)).
 
 (* ---------------------------------------------------------------------------------------- *)
@@ -465,6 +490,18 @@ Definition put (st : state) (x : nat) (m : M cont) : res (bool * state) :=
 Definition skip (st : state) : res (bool * state) := Ok (false, st).
 Definition lift {A B} (f : A -> B) (m : M A) : M B := a <- m ;; ret (f a).
 
+(* remove(iterator) / Array::remove(index); Array::remove(const Iterator&), removeFront() and
+   removeBack() are this same code (a second copy of the shift loop in Array, `return
+   remove(_begin)` / `remove(_end.item->prev)` elsewhere) *)
+Definition rem_at (st : state) (x i : nat) : res (bool * state) :=
+  match getv (svars st) x with
+  | Some (CA a) => if i <? length (aelems a) then put st x (lift CA (arr_remove a i)) else skip st
+  | Some (CN n) => if i <? length (citems n) then put st x (lift CN (nc_remove_at n i)) else skip st
+  | None => skip st
+  end.
+Definition clen (c : cont) : nat :=
+  match c with CA a => length (aelems a) | CN n => length (citems n) end.
+
 Definition step (st : state) (o : op) : res (bool * state) :=
   let vs := svars st in
   match o with
@@ -538,12 +575,7 @@ Definition step (st : state) (o : op) : res (bool * state) :=
           end
       | None => skip st
       end
-  | ORemAt x i =>
-      match getv vs x with
-      | Some (CA a) => if i <? length (aelems a) then put st x (lift CA (arr_remove a i)) else skip st
-      | Some (CN n) => if i <? length (citems n) then put st x (lift CN (nc_remove_at n i)) else skip st
-      | None => skip st
-      end
+  | ORemAt x i => rem_at st x i
   | ORemKey x ka =>
       match getv vs x with
       | Some (CN n) =>
@@ -588,6 +620,22 @@ Definition step (st : state) (o : op) : res (bool * state) :=
           | None => skip st
           end
       | _ => skip st
+      end
+  | OAppendRange x y i n =>
+      match getv vs x, getv vs y with
+      | Some (CA a), Some (CA b) =>
+          if i + n <=? length (aelems b)
+          then put st x (lift CA (arr_append_range a (if Nat.eqb x y then None else Some b) i n))
+          else skip st
+      | _, _ => skip st
+      end
+  | ORemVia v x i =>
+      match getv vs x with
+      | Some c => match via_idx v (kind_of c) (clen c) i with
+                  | Some j => rem_at st x j
+                  | None => skip st
+                  end
+      | None => skip st
       end
   end.
 
